@@ -25,7 +25,7 @@ C16.panic   no unwrap/expect of a parse result and no explicit panic under a
 import re
 
 from mirlib import BranchFacts, strip, deep_strip, show, walk, const_value
-from rulelib import bool_facts, control_terms, facts_at, outcome_facts, relations, return_assignments
+from rulelib import bool_facts, control_terms, facts_at, fmt_path, must_pass, outcome_facts, relations, return_assignments
 
 S = "net::server::"
 MIN = 512
@@ -43,10 +43,62 @@ def run(ctx):
     rule_trunc(ctx, F)
     rule_reply(ctx, F)
     rule_frame(ctx, F)
+    rule_partial(ctx, F)
+    rule_accept(ctx, F)
     rule_panic(ctx, F)
     rule_once(ctx, F)
     import c02
     c02.rule_shim(ctx, F)   # the length prefix written on a stream is kept current by StreamTarget (shared with C02)
+
+
+def rule_partial(ctx, F):
+    R = "C16.partial"
+    ctx.floor(R, 2)
+    bs = [b for p, b in F.bodies.items() if re.match(r"^net::server::connection::Connection::<.*>::write_response_to_stream::\{closure#0\}$", p)]
+    if not ctx.anchor(R, "Connection::write_response_to_stream", len(bs) == 1):
+        return
+    b = bs[0]
+    writes = [bb for bb, t in b.calls() if re.search(r"::write_all$", t["fn"] or "")]
+    if not ctx.anchor(R, "write_all in write_response_to_stream", len(writes) == 1, b.where()):
+        return
+    after = b.reach_from(writes[0])
+    n = 0
+    for bi, si, kind, term in return_assignments(b):
+        if kind != "Err" or bi not in after or term is None:
+            continue
+        n += 1
+        s = show(term)
+        m = re.search(r"ConnectionEvent:(\w+)", s)
+        ctx.ob(R, b, "failure exit #%d after the write started" % n, bool(m) and m.group(1) == "DisconnectWithoutFlush",
+               "write_response_to_stream reports %s after a write that failed or timed out: the caller flushes the queued "
+               "responses behind a frame that may have been written only in part, and the peer reads them as the rest of "
+               "that frame" % (m.group(1) if m else s[:60]), b.where(bi))
+
+
+def rule_accept(ctx, F):
+    R = "C16.accept"
+    ctx.floor(R, 1)
+    bs = [b for p, b in F.bodies.items() if re.match(r"^net::server::stream::StreamServer::<.*>::run_until_error::\{closure#0\}$", p)]
+    if not ctx.anchor(R, "StreamServer::run_until_error", len(bs) == 1):
+        return
+    b = bs[0]
+    n = 0
+    for bi, si, kind, term in return_assignments(b):
+        if kind != "Err":
+            continue
+        n += 1
+        # the `?` / match arm this return belongs to: the closest dominating failure outcome
+        srcs = []
+        for tt, v, _ in facts_at(b, bi, F):
+            if v in (("variant", "Break"), ("variant", "Err")):
+                cs = [s[1].split("::")[-1] for s in walk(deep_strip(tt)) if s[0] == "call" and s[1] and not s[1].endswith("Try::branch")]
+                if cs:
+                    srcs = cs
+        first = srcs[0] if srcs else "?"
+        ctx.ob(R, b, "error return #%d is the outcome of a server command" % n, first == "process_server_command",
+               "StreamServer::run_until_error returns an error that is not the outcome of process_server_command (it stems "
+               "from %s): a single failed accept ends the accept loop and no later client is served" % first, b.where(bi))
+    ctx.ob(R, b, "the accept loop has an error exit at all", n >= 1, "no error return found in run_until_error", nontrivial=False)
 
 
 def _one(F, rx):
@@ -99,6 +151,22 @@ def rule_size(ctx, F):
     ctx.ob(R, b, "limit = min(client size, server hint)", okmin or not hint,
            "the stored limit is not the smaller of the clamped client size and the clamped server hint: a response "
            "larger than what the client (or the operator) allows would be sent over UDP")
+    # on the UDP arm every way of letting the request through has stored the negotiated limit
+    bf = BranchFacts(b, F)
+    udp = None
+    for sw in sorted(b.reachable_blocks()):
+        if b.blocks[sw]["t"]["k"] != "switch":
+            continue
+        for lab, (tt, vv) in bf.edge_facts(sw).items():
+            if vv == ("variant", "Udp") and "transport_ctx" in show(deep_strip(tt)):
+                udp = b.edge_target(sw, lab)
+    conts = sorted({r[0] for r in return_assignments(b) if r[2] == "Continue"})
+    if ctx.anchor(R, "the UDP arm of the transport match and the Continue returns", udp is not None and bool(conts), b.where()):
+        okp, path = must_pass(b, udp, conts, [bb])
+        ctx.ob(R, b, "every request let through on the UDP arm has had its limit negotiated", okp,
+               "EdnsMiddlewareSvc::preprocess can return Continue on the UDP arm for a request with an OPT record without "
+               "storing the negotiated response size (path %s): the response is truncated against the server's limit, not "
+               "the smaller size the client advertised" % (fmt_path(path) if path else ""), b.where(bb))
     # the value stored is Some(..) of that
     some = deep_strip(v)
     ctx.ob(R, b, "the negotiated value is what is stored", some[0] == "agg" and some[1][:3] == ("adt", "core::option::Option", "Some"),
